@@ -227,11 +227,16 @@ func addSubscription(m *match.Match, s *pb.SubscriptionList, c *matchClient) (re
 		if p == nil {
 			continue
 		}
-		query := prefix
+		// Each query gets its own slice: the remove function returned by
+		// AddQuery keeps it, and prefix has spare capacity that would otherwise
+		// be shared and overwritten by the following subscriptions.
+		suffix := path.ToStrings(p, false)
+		query := make([]string, 0, len(prefix)+1+len(suffix))
+		query = append(query, prefix...)
 		if origin := p.GetOrigin(); s.Prefix.GetOrigin() == "" && origin != "" {
-			query = append(prefix, origin)
+			query = append(query, origin)
 		}
-		query = append(query, path.ToStrings(p, false)...)
+		query = append(query, suffix...)
 		removes = append(removes, m.AddQuery(query, c))
 	}
 	return func() {
